@@ -8,16 +8,23 @@
 
   1. `send_flag`: the flag of a frame is `decide (db = disk) && decide (udb = udisk)` of the state
      that calls `send`; it is `true` iff that state has nothing uncommitted.
+     `send_durable`: in a state where commits and snapshots have been appended together and the
+     last snapshot is the disk (`AckInv0`, true all along a step: `ackInv0_stepPlain`), a `send`
+     with flag `true` emits a frame such that the files a kill right after it leaves are the
+     `(db, udb)` of the sending state.
 
   2. An instrumented reading of a step.  `Sys` has no field for "the databases as they were when
      frame number i was sent", and the model must not be changed; so the executions are described
      from outside: `Exec s0 s L` is the least relation such that `s` is obtained from `s0` by the
-     primitives of Sys.lean (`send`, `emit` of a non-frame event, `commit`, `ucommit`, `modDb`,
-     `modUdb`, a change of `conns`, a change of `rebooted`), and `L` is the GHOST LOG of that
+     primitives of Sys.lean (`send`, `emit` of an `internal` or `fired` event, `commit`,
+     `ucommit`, `modDb`, `modUdb`, a change of `conns`, a change of `rebooted`) — frames are produced
+     by `send` only, commit events by `commit`/`ucommit` only —, and `L` is the GHOST LOG of that
      execution: the list of the states from which `send` was called, oldest first (the whole state:
      its `out` is the output before the frame, its `db`/`udb` are what the server was acting on).
-       * `stepPlain_exec`: every operation of the model IS such an execution (`AClosed`: one pass
-         through Core.lean/Ws.lean in the style of `UClosed`, with `send` kept apart from `emit`);
+       * `stepPlain_exec`: every operation of the model IS such an execution (`AClosed`,
+         Inv/AckDurClosed.lean: one pass through Core.lean/Ws.lean in the style of `UClosed`, with
+         `send` kept apart from `emit`; the log is built call by call: one entry per `send` of the
+         code, in order);
        * `Exec.sends`: for EVERY execution from a state with empty `out`/`snaps` (not only the one
          `stepPlain_exec` exhibits) and every entry `m` of its log:
            - `m.snaps.length = commitCount m.out`, `lastSnap D0 m.snaps = (m.disk, m.udisk)`
@@ -47,22 +54,30 @@
      `C09_ack_durable_crash`.
 
   5. `C09_ack_durable_last` (cheap special case): a crash after the last commit of a step
-     (`k > snaps.length`) leaves the `db`/`udb` of the completed step.
+     (`k ≥ snaps.length`) leaves the `db`/`udb` of the completed step.
+
+  6. `C09_ack_durable_trace`: the same for every prefix, ending in a frame, of the trace of every
+     well-formed history from the initial state (the referee's wording, AUDIT_A problem 10).
+
+  Why the log is not a weakness: `Exec` is a relation, so one final state might be reached by
+  several executions with different logs; the theorems hold for EVERY log (`hL` is a hypothesis),
+  and the entry of a frame is pinned down by the final state anyway (`m.out = pre`, `m.snaps`,
+  `(m.disk, m.udisk)` and, the flag being `true`, `(m.db, m.udb)` are all determined).
 
   What is NOT covered: nothing of the clause as formalised in DESIGN §6.  (Limits of the model, not
   of the theorem: crash points between two commits are not separate `Op`s — harmless, see 4; a
   commit is atomic and durable, journal side files are not modelled — C19/C20.)
 -/
 import Wormhole.Props.C09b
-import Wormhole.Inv.UsageTrack
+import Wormhole.Inv.AckDurClosed
 
 namespace Wormhole
 namespace Sys
 
 /-! ## 1. the flag -/
 
-theorem synced_iff (s : Sys) : s.synced = true ↔ s.db = s.disk ∧ s.udb = s.udisk := by
-  simp [synced]
+/- `synced_iff : s.synced = true ↔ s.Synced` (`Synced s := s.db = s.disk ∧ s.udb = s.udisk`) is in
+   Inv/SyncLemmas.lean. -/
 
 /-- **the meaning of the flag**: `send` appends one frame whose flag is computed from the sending
     state; it is `true` iff that state has nothing uncommitted; nothing else changes -/
@@ -86,7 +101,8 @@ def commitCount (l : List Event) : Nat := l.countP isCommitB
 @[simp] theorem commitCount_append (a b : List Event) : commitCount (a ++ b) = commitCount a + commitCount b :=
   List.countP_append
 @[simp] theorem commitCount_commit (w : DbId) (l : List Event) :
-    commitCount (.commit w :: l) = commitCount l + 1 := by simp [commitCount, isCommitB]
+    commitCount (.commit w :: l) = commitCount l + 1 := by
+  unfold commitCount; rw [List.countP_cons_of_pos (by rfl)]
 theorem commitCount_notCommit {e : Event} (h : isCommitB e = false) (l : List Event) :
     commitCount (e :: l) = commitCount l := by simp [commitCount, h]
 theorem commitCount_notFrame_frame (c f b) (l : List Event) :
@@ -99,6 +115,28 @@ def lastSnap (D0 : Chan × Usage) (snaps : List (Chan × Usage)) : Chan × Usage
 @[simp] theorem lastSnap_nil (D0) : lastSnap D0 [] = D0 := rfl
 @[simp] theorem lastSnap_concat (D0) (l : List (Chan × Usage)) (p) : lastSnap D0 (l ++ [p]) = p := by
   simp [lastSnap]
+
+/-- commits and snapshots have been appended together, and the last snapshot is the disk -/
+def AckInv0 (D0 : Chan × Usage) (s : Sys) : Prop :=
+  s.snaps.length = commitCount s.out ∧ lastSnap D0 s.snaps = (s.disk, s.udisk)
+
+/-- **a synced `send` is durable**: in a state satisfying `AckInv0`, if nothing is uncommitted then
+    the frame goes out with flag `true`, and the files a kill leaves right after it — the last of
+    the snapshots committed before it, `D0` if none — are the `(db, udb)` of the sending state -/
+theorem send_durable {D0 : Chan × Usage} {s : Sys} (h : AckInv0 D0 s) (c : Nat) (f : Frame)
+    (hs : s.synced = true) :
+    (s.send c f).out = s.out ++ [.frame c f true] ∧
+    lastSnap D0 ((s.send c f).snaps.take (commitCount (s.out ++ [.frame c f true]))) = (s.db, s.udb) := by
+  have h1 : (s.send c f).out = s.out ++ [.frame c f true] := by
+    show s.out ++ [.frame c f s.synced] = _
+    rw [hs]
+  have hsy := (synced_iff s).1 hs
+  refine ⟨h1, ?_⟩
+  have : commitCount (s.out ++ [.frame c f true]) = s.snaps.length := by
+    rw [commitCount_append, h.1]; simp [commitCount, isCommitB]
+  rw [this]
+  show lastSnap D0 (s.snaps.take s.snaps.length) = _
+  rw [List.take_length, h.2, hsy.1, hsy.2]
 
 /-- `lastSnap` of the first `k` snapshots, by cases -/
 theorem lastSnap_take (D0) (l : List (Chan × Usage)) (k : Nat) :
@@ -118,7 +156,7 @@ theorem lastSnap_take (D0) (l : List (Chan × Usage)) (k : Nat) :
 inductive Exec (s0 : Sys) : Sys → List Sys → Prop
   | start : Exec s0 s0 []
   | send {s : Sys} {L : List Sys} (c : Nat) (f : Frame) : Exec s0 s L → Exec s0 (s.send c f) (L ++ [s])
-  | note {s : Sys} {L : List Sys} (e : Event) : NotFrame e → Exec s0 s L → Exec s0 (s.emit e) L
+  | note {s : Sys} {L : List Sys} (e : Event) : Note e → Exec s0 s L → Exec s0 (s.emit e) L
   | commit {s : Sys} {L : List Sys} : Exec s0 s L → Exec s0 s.commit L
   | ucommit {s : Sys} {L : List Sys} : Exec s0 s L → Exec s0 s.ucommit L
   | modDb {s : Sys} {L : List Sys} (f : Chan → Chan) : Exec s0 s L → Exec s0 (s.modDb f) L
@@ -218,9 +256,14 @@ theorem Exec.sends {s0 s : Sys} {L : List Sys} (h : Exec s0 s L) (ho : s0.out = 
     rw [ho] at hp
     simp at hp
   | send c f _ ih => exact ih.send c f
-  | note e he _ ih => exact ih.grow1 (e := e) (sn := []) rfl he (by simp [Sys.emit])
-      (by cases e <;> first | rfl | exact absurd he (by simp [NotFrame]))
-      (by simpa [Sys.emit] using ih.last)
+  | @note s1 L1 e he _ ih =>
+    cases e with
+    | frame c f b => exact absurd he (by simp [Note])
+    | commit w => exact absurd he (by simp [Note])
+    | internal c cls =>
+      exact ih.grow1 (s' := s1.emit (.internal c cls)) (sn := []) rfl trivial (by simp [Sys.emit]) rfl ih.last
+    | fired a b =>
+      exact ih.grow1 (s' := s1.emit (.fired a b)) (sn := []) rfl trivial (by simp [Sys.emit]) rfl ih.last
   | commit _ ih => exact ih.commit
   | ucommit _ ih => exact ih.ucommit
   | modDb f _ ih => exact ih.congr rfl rfl rfl rfl
@@ -245,478 +288,9 @@ theorem Sends.frame {D0 s L} (h : Sends D0 s L) {pre : List Event} {c f b post}
 
 /-! ## 4. every function of the model is an execution
 
-  `AClosed T`: `T` survives the primitives; then it survives every function of Core.lean / Ws.lean.
-  (Same pass as `UClosed` of Inv/UsageTrack.lean, but `send` is kept apart from the emission of
-  other events, and the usage database may be written arbitrarily.) -/
-
-structure AClosed (T : Sys → Prop) : Prop where
-  send0 : ∀ s c f, T s → T (s.send c f)
-  note : ∀ s e, NotFrame e → T s → T (s.emit e)
-  commit : ∀ s, T s → T s.commit
-  ucommit : ∀ s, T s → T s.ucommit
-  modDb : ∀ s f, T s → T (s.modDb f)
-  modUdb : ∀ s f, T s → T (s.modUdb f)
-  conns : ∀ s cs, T s → T { s with conns := cs }
-  reboot : ∀ s t, T s → T { s with rebooted := t }
-
-section
-variable {T : Sys → Prop} (hT : AClosed T)
-include hT
-
-theorem AClosed.send {s : Sys} (h : T s) (c f) : T (s.send c f) := hT.send0 _ _ _ h
-theorem AClosed.sendError {s : Sys} (h : T s) (c x) : T (s.sendError c x) := hT.send0 _ _ _ h
-theorem AClosed.internalErr {s : Sys} (h : T s) (c x) : T (s.internalErr c x) := hT.note _ _ trivial h
-theorem AClosed.updConn {s : Sys} (h : T s) (c f) : T (s.updConn c f) := hT.conns _ _ h
-theorem AClosed.stopListeners {s : Sys} (h : T s) (a m) : T (s.stopListeners a m) := hT.conns _ _ h
-
-theorem AClosed.storeNp (s : Sys) (app sides t p) (h : T s) : T (s.storeNameplateUsage app sides t p).1 := by
-  unfold Sys.storeNameplateUsage
-  split
-  · exact h
-  · exact hT.modUdb _ _ h
-
-theorem AClosed.storeMb (s : Sys) (app f sides t p) (h : T s) : T (s.storeMailboxUsage app f sides t p) :=
-  hT.modUdb _ _ h
-
-theorem AClosed.foldl_send {α : Type} (g : α → Nat) (fr : α → Frame) (l : List α) :
-    ∀ {s : Sys}, T s → T (l.foldl (fun s a => s.send (g a) (fr a)) s) := by
-  induction l with
-  | nil => intro s h; exact h
-  | cons a l ih => intro s h; exact ih (hT.send h _ _)
-
-theorem AClosed.replay {s : Sys} (h : T s) (c app mb) : T (s.replay c app mb) := by
-  unfold Sys.replay
-  exact hT.foldl_send (fun _ => c) (fun (m : Message) => .message m.side m.phase m.body m.rx m.msgId) _ h
-
-theorem AClosed.broadcast {s : Sys} (h : T s) (app mb f) : T (s.broadcast app mb f) := by
-  unfold Sys.broadcast
-  exact hT.foldl_send (fun c => c) (fun _ => f) _ h
-
-theorem AClosed.storeNameplatesOfMailbox {app t} (l : List Nameplate) :
-    ∀ {s : Sys}, T s → T (s.storeNameplatesOfMailbox app t l).1 := by
-  induction l with
-  | nil => intro s h; exact h
-  | cons np rest ih =>
-    intro s h
-    unfold Sys.storeNameplatesOfMailbox
-    have h1 := hT.storeNp s app (s.db.npSidesOf np.id) t false h
-    split
-    · rename_i s2 heq; rw [heq] at h1; exact h1
-    · rename_i s2 heq; rw [heq] at h1; exact ih h1
-
-theorem AClosed.mailboxOpen {s : Sys} (h : T s) (mb side t) : T (s.mailboxOpen mb side t) := by
-  unfold Sys.mailboxOpen
-  split
-  · exact hT.commit _ (hT.modDb _ _ (hT.modDb _ _ h))
-  · exact hT.commit _ (hT.modDb _ _ h)
-
-theorem AClosed.addMailbox {s s1 : Sys} (h : T s) {app mb forNp t}
-    (e : s.addMailbox app mb forNp t = some s1) : T s1 := by
-  unfold Sys.addMailbox at e
-  split at e
-  · cases e; exact h
-  · split at e
-    · cases e
-    · cases e; exact hT.modDb _ _ h
-
-theorem AClosed.openMailbox {s : Sys} (h : T s) (app mb side t) : T (s.openMailbox app mb side t).1 := by
-  unfold Sys.openMailbox
-  split
-  · exact h
-  · rename_i s1 e
-    have h2 := hT.commit _ (hT.mailboxOpen (hT.addMailbox h e) mb side t)
-    dsimp only
-    split <;> exact h2
-
-theorem AClosed.addMessage {s : Sys} (h : T s) (app mb side ph bd t id) :
-    T (s.addMessage app mb side ph bd t id) := by
-  unfold Sys.addMessage
-  exact hT.commit _ (hT.modDb _ _ (hT.modDb _ _ h))
-
-theorem AClosed.mailboxClose {s : Sys} (h : T s) (app mb side mood t) :
-    T (s.mailboxClose app mb side mood t).1 := by
-  unfold Sys.mailboxClose
-  split
-  · exact h
-  · split
-    · exact h
-    · dsimp only
-      have h1 : T ((s.modDb (·.closeSide mb side mood)).commit) := hT.commit _ (hT.modDb _ _ h)
-      split
-      · exact h1
-      · generalize hE : (if ((s.modDb (·.closeSide mb side mood)).commit).cfg.usage then _ else _) = p
-        obtain ⟨s2, ok⟩ := p
-        have h2 : T s2 := by
-          split at hE
-          · have := hT.storeNameplatesOfMailbox (app := app) (t := t)
-              (((s.modDb (·.closeSide mb side mood)).commit).db.nameplatesOfMailbox app mb) h1
-            rw [hE] at this; exact this
-          · cases hE; exact h1
-        dsimp only
-        split
-        · exact h2
-        · dsimp only
-          apply hT.stopListeners
-          apply hT.commit
-          have h3 := hT.modDb _ (fun d =>
-            ((((d.delNpSidesOfMailbox app mb).delNameplatesOfMailbox app mb).delMessagesOf mb).delMbSidesOf
-              mb).delMailbox mb) h2
-          split
-          · exact hT.ucommit _ (hT.storeMb _ _ _ _ _ _ h3)
-          · exact h3
-
-theorem AClosed.logClientVersion {s : Sys} (h : T s) (a sd t i v) : T (s.logClientVersion a sd t i v) := by
-  unfold Sys.logClientVersion
-  split
-  · exact hT.ucommit _ (hT.modUdb _ _ h)
-  · exact h
-
-theorem AClosed.claimCont {s : Sys} (h : T s) (app npid mb side t) : T (claimCont s app npid mb side t).1 := by
-  unfold Sys.claimCont
-  have h3 := hT.openMailbox (hT.commit _ h) app mb side t
-  dsimp only
-  split
-  all_goals
-    rename_i e
-    rw [e] at h3
-  · exact h3
-  · exact h3
-  · split <;> exact h3
-
-theorem AClosed.claimTail {s : Sys} (h : T s) (app npid mb side t) : T (s.claimTail app npid mb side t).1 := by
-  rw [claimTail_eq]
-  split
-  · exact hT.claimCont (hT.modDb _ _ h) _ _ _ _ _
-  · split
-    · exact hT.claimCont h _ _ _ _ _
-    · exact h
-
-theorem AClosed.claimNameplate {s : Sys} (h : T s) (app name side t fresh) :
-    T (s.claimNameplate app name side t fresh).1 := by
-  unfold Sys.claimNameplate
-  split
-  · split
-    · exact h
-    · rename_i s1 e
-      exact hT.claimTail (hT.modDb _ _ (hT.addMailbox h e)) _ _ _ _ _
-  · exact hT.claimTail h _ _ _ _ _
-
-theorem AClosed.releaseNameplate {s : Sys} (h : T s) (app name side t) :
-    T (s.releaseNameplate app name side t).1 := by
-  unfold Sys.releaseNameplate
-  split
-  · exact h
-  · rename_i np _
-    split
-    · exact h
-    · dsimp only
-      have h1 : T ((s.modDb (·.unclaim np.id side)).commit) := hT.commit _ (hT.modDb _ _ h)
-      split
-      · exact h1
-      · have h2 := hT.modDb _ (fun d => (d.delNpSidesOf np.id).delNameplate np.id) h1
-        split
-        · have h3 := hT.storeNp _ app
-            (((s.modDb (·.unclaim np.id side)).commit).db.npSidesOf np.id) t false h2
-          split
-          all_goals
-            rename_i e
-            rw [e] at h3
-          · exact h3
-          · exact hT.commit _ (hT.ucommit _ h3)
-        · exact hT.commit _ h2
-
-theorem AClosed.pruneNameplates {app now} (l : List Nameplate) :
-    ∀ {s : Sys}, T s → T (s.pruneNameplates app now l).1 := by
-  induction l with
-  | nil => intro s h; exact h
-  | cons np rest ih =>
-    intro s h
-    unfold Sys.pruneNameplates
-    dsimp only
-    have h1 := hT.modDb _ (fun d => (d.delNpSidesOf np.id).delNameplate np.id) h
-    split
-    · have h2 := hT.storeNp _ app (s.db.npSidesOf np.id) now true h1
-      split
-      all_goals
-        rename_i e
-        rw [e] at h2
-      · exact h2
-      · exact ih h2
-    · exact ih h1
-
-theorem AClosed.pruneMailboxes {app now} (l : List MailboxRow) :
-    ∀ {s : Sys}, T s → T (s.pruneMailboxes app now l) := by
-  induction l with
-  | nil => intro s h; exact h
-  | cons row rest ih =>
-    intro s h
-    unfold Sys.pruneMailboxes
-    dsimp only
-    have h1 := hT.modDb _ (fun d => ((d.delMessagesOf row.id).delMbSidesOf row.id).delMailbox row.id) h
-    split
-    · exact ih (hT.storeMb _ _ _ _ _ _ h1)
-    · exact ih h1
-
-theorem AClosed.prune {s : Sys} (h : T s) (app now old) : T (s.prune app now old).1 := by
-  rw [prune_eq]
-  dsimp only
-  have h1 : T ((s.touchListened app now).commit) := hT.commit _ (hT.modDb _ _ h)
-  generalize (s.touchListened app now).commit = s1 at h1
-  unfold pruneRest
-  have h2 := hT.pruneNameplates (app := app) (now := now) ((s1.db.nameplatesOfApp app).filter
-    (fun r => r.mailbox ∈ ((s1.db.mailboxesOfApp app).filter (fun r => ¬ r.updated > old)).map (·.id))) h1
-  split
-  · rename_i e; rw [e] at h2; exact h2
-  · rename_i s2 e
-    rw [e] at h2
-    have h3 := hT.pruneMailboxes (app := app) (now := now)
-      ((s1.db.mailboxesOfApp app).filter (fun r => ¬ r.updated > old)) h2
-    dsimp only
-    split
-    · dsimp only
-      split
-      · exact hT.ucommit _ (hT.commit _ h3)
-      · exact hT.commit _ h3
-    · exact h3
-
-theorem AClosed.pruneApps {now old} (l : List String) :
-    ∀ {s : Sys}, T s → T (s.pruneApps now old l).1 := by
-  induction l with
-  | nil => intro s h; exact h
-  | cons app rest ih =>
-    intro s h
-    unfold Sys.pruneApps
-    have h1 := hT.prune h app now old
-    split
-    all_goals
-      rename_i e
-      rw [e] at h1
-    · exact h1
-    · exact ih h1
-
-theorem AClosed.dumpStats {s : Sys} (h : T s) (now) : T (s.dumpStats now) := by
-  unfold Sys.dumpStats
-  split
-  · exact hT.ucommit _ (hT.modUdb _ _ h)
-  · exact h
-
-theorem AClosed.expire {s : Sys} (h : T s) (now fault) : T (s.expire now fault) := by
-  unfold Sys.expire
-  dsimp only
-  apply hT.dumpStats
-  have h0 := hT.note s (.fired now (now - Generated.expirationTicks)) trivial h
-  split
-  · exact hT.note _ _ trivial h0
-  · have h1 := hT.pruneApps (now := now) (old := now - Generated.expirationTicks)
-      (s.emit (.fired now (now - Generated.expirationTicks))).allApps h0
-    split
-    all_goals
-      rename_i e
-      rw [e] at h1
-    · exact h1
-    · exact hT.note _ _ trivial h1
-
-theorem AClosed.handlePing {s : Sys} (h : T s) (c v) : T (s.handlePing c v) := by
-  unfold Sys.handlePing; split
-  · exact hT.sendError h _ _
-  · exact hT.send h _ _
-
-theorem AClosed.handleBind {s : Sys} (h : T s) (x t a sd i v) : T (s.handleBind x t a sd i v) := by
-  unfold Sys.handleBind
-  split
-  · exact hT.sendError h _ _
-  · split
-    · exact hT.sendError h _ _
-    · split
-      · exact hT.sendError h _ _
-      · exact hT.logClientVersion (hT.updConn h _ _) _ _ _ _ _
-
-theorem AClosed.handleList {s : Sys} (h : T s) (x app) : T (s.handleList x app) := hT.send h _ _
-
-theorem AClosed.handleAllocate {s : Sys} (h : T s) (x app side t pick draws fresh) :
-    T (s.handleAllocate x app side t pick draws fresh) := by
-  unfold Sys.handleAllocate
-  split
-  · exact hT.sendError h _ _
-  · split
-    · exact hT.internalErr h _ _
-    · rename_i name _
-      have h1 := hT.claimNameplate h app name side t fresh
-      split
-      all_goals
-        rename_i e
-        rw [e] at h1
-      · exact hT.send (hT.updConn h1 _ _) _ _
-      · exact hT.internalErr h1 _ _
-      · exact hT.internalErr h1 _ _
-      · exact hT.internalErr h1 _ _
-
-theorem AClosed.handleClaim {s : Sys} (h : T s) (x app side t n fresh) :
-    T (s.handleClaim x app side t n fresh) := by
-  unfold Sys.handleClaim
-  split
-  · exact hT.sendError h _ _
-  · rename_i name
-    split
-    · exact hT.sendError h _ _
-    · have h1 := hT.claimNameplate
-        (hT.updConn h x.id (fun y => { y with didClaim := true, nameplateId := some name })) app name side t fresh
-      dsimp only
-      split
-      all_goals
-        rename_i e
-        rw [e] at h1
-      · exact hT.send h1 _ _
-      · exact hT.sendError h1 _ _
-      · exact hT.sendError h1 _ _
-      · exact hT.internalErr h1 _ _
-
-theorem AClosed.handleRelease {s : Sys} (h : T s) (x app side t n) : T (s.handleRelease x app side t n) := by
-  unfold Sys.handleRelease
-  have go : ∀ name : String, T (match (s.updConn x.id (fun y => { y with didRelease := true })).releaseNameplate
-      app name side t with
-      | (s1, true) => s1.send x.id .released
-      | (s1, false) => s1.internalErr x.id "IndexError") := by
-    intro name
-    have h1 := hT.releaseNameplate (hT.updConn h x.id (fun y => { y with didRelease := true })) app name side t
-    split
-    all_goals
-      rename_i e
-      rw [e] at h1
-    · exact hT.send h1 _ _
-    · exact hT.internalErr h1 _ _
-  split
-  · exact hT.sendError h _ _
-  · dsimp only
-    split
-    · split
-      · exact hT.sendError h _ _
-      · exact go _
-    · exact go _
-    · exact go _
-    · exact hT.sendError h _ _
-
-theorem AClosed.handleOpen {s : Sys} (h : T s) (x app side t m) : T (s.handleOpen x app side t m) := by
-  unfold Sys.handleOpen
-  split
-  · exact hT.sendError h _ _
-  · split
-    · exact hT.sendError h _ _
-    · rename_i mb
-      have h1 := hT.openMailbox (hT.updConn h x.id (fun y => { y with mailboxId := some mb })) app mb side t
-      dsimp only
-      split
-      all_goals
-        rename_i e
-        rw [e] at h1
-      · exact hT.sendError h1 _ _
-      · exact hT.internalErr h1 _ _
-      · exact hT.replay (hT.updConn h1 _ _) _ _ _
-
-theorem AClosed.handleAdd {s : Sys} (h : T s) (x app side t id ph bd) :
-    T (s.handleAdd x app side t id ph bd) := by
-  unfold Sys.handleAdd
-  split
-  · exact hT.sendError h _ _
-  · split
-    · exact hT.sendError h _ _
-    · split
-      · exact hT.sendError h _ _
-      · exact hT.broadcast (hT.addMessage h _ _ _ _ _ _ _) _ _ _
-
-theorem AClosed.handleClose {s : Sys} (h : T s) (x app side t m mood) :
-    T (s.handleClose x app side t m mood) := by
-  unfold Sys.handleClose
-  have tail : ∀ (s1 : Sys) (r : OpenRes) (hd : String), T s1 →
-      T (match ((s1, r, hd) : Sys × OpenRes × String) with
-       | (s1, .crowded, _) => s1.sendError x.id "crowded"
-       | (s1, .integrity, _) => s1.internalErr x.id "IntegrityError"
-       | (s1, .ok, h) =>
-         let s2 := s1.updConn x.id (fun y => { y with listening := false, didClose := true })
-         match s2.mailboxClose app h side mood t with
-         | (s3, false) => s3.internalErr x.id "IndexError"
-         | (s3, true) => (s3.updConn x.id (fun y => { y with mailbox := none })).send x.id .closed) := by
-    intro s1 r hd h1
-    cases r
-    · dsimp only
-      have h3 := hT.mailboxClose (hT.updConn h1 x.id (fun y => { y with listening := false, didClose := true }))
-        app hd side mood t
-      split
-      all_goals
-        rename_i e
-        rw [e] at h3
-      · exact hT.internalErr h3 _ _
-      · exact hT.send (hT.updConn h3 _ _) _ _
-    · exact hT.sendError h1 _ _
-    · exact hT.internalErr h1 _ _
-  have go : ∀ mb : String,
-      T (match (match x.mailbox with
-          | some h => (s, OpenRes.ok, h)
-          | none =>
-            match s.openMailbox app mb side t with
-            | (s1, r) => (s1.updConn x.id (fun y => if r = OpenRes.ok then { y with mailbox := some mb } else y), r, mb)
-          : Sys × OpenRes × String) with
-       | (s1, .crowded, _) => s1.sendError x.id "crowded"
-       | (s1, .integrity, _) => s1.internalErr x.id "IntegrityError"
-       | (s1, .ok, h) =>
-         let s2 := s1.updConn x.id (fun y => { y with listening := false, didClose := true })
-         match s2.mailboxClose app h side mood t with
-         | (s3, false) => s3.internalErr x.id "IndexError"
-         | (s3, true) => (s3.updConn x.id (fun y => { y with mailbox := none })).send x.id .closed) := by
-    intro mb
-    cases hx : x.mailbox with
-    | some hd => exact tail s .ok hd h
-    | none =>
-      dsimp only
-      have h1 := hT.openMailbox h app mb side t
-      cases e : s.openMailbox app mb side t with
-      | mk s1 r =>
-        rw [e] at h1
-        exact tail _ r mb (hT.updConn h1 _ _)
-  split
-  · exact hT.sendError h _ _
-  · dsimp only
-    split
-    · split
-      · exact hT.sendError h _ _
-      · exact go _
-    · exact go _
-    · exact go _
-    · exact hT.sendError h _ _
-
-theorem AClosed.onMessage {s : Sys} (h : T s) (c t id cmd) : T (s.onMessage c t id cmd) := by
-  unfold Sys.onMessage
-  split
-  · exact h
-  · rename_i x _
-    have ha := hT.send h c (.ack id)
-    cases cmd with
-    | noType => exact hT.sendError h _ _
-    | ping v => exact hT.handlePing ha _ _
-    | bind a sd i v => exact hT.handleBind ha _ _ _ _ _ _
-    | unknown => dsimp only; split <;> exact hT.sendError ha _ _
-    | list => dsimp only; split; exact hT.sendError ha _ _; exact hT.handleList ha _ _
-    | allocate p d f => dsimp only; split; exact hT.sendError ha _ _; exact hT.handleAllocate ha _ _ _ _ _ _ _
-    | claim n f => dsimp only; split; exact hT.sendError ha _ _; exact hT.handleClaim ha _ _ _ _ _ _
-    | release n => dsimp only; split; exact hT.sendError ha _ _; exact hT.handleRelease ha _ _ _ _ _
-    | open_ m => dsimp only; split; exact hT.sendError ha _ _; exact hT.handleOpen ha _ _ _ _ _
-    | add ph bd => dsimp only; split; exact hT.sendError ha _ _; exact hT.handleAdd ha _ _ _ _ _ _ _
-    | close m mood => dsimp only; split; exact hT.sendError ha _ _; exact hT.handleClose ha _ _ _ _ _ _
-
-theorem AClosed.restart {s : Sys} (h : T s) (t : Time) : T (s.restart t) :=
-  hT.reboot _ t (hT.conns _ [] (hT.modUdb _ (fun _ => s.udisk) (hT.modDb _ (fun _ => s.disk) h)))
-
-/-- every plain operation -/
-theorem AClosed.stepPlain {s : Sys} (h : T s) (op : Op) : T (s.stepPlain op) := by
-  cases op with
-  | connect c => exact hT.send (s := { s with conns := s.conns ++ [({ id := c } : Conn)] }) (hT.conns _ _ h) _ _
-  | recv c t id cmd => exact hT.onMessage h c t id cmd
-  | drop c => exact hT.conns _ _ h
-  | sweep now fault => exact hT.expire h now fault
-  | restart t => exact hT.restart h t
-  | crashIn k op => exact h
-
-end
+  `AClosed T` (Inv/AckDurClosed.lean): `T` survives the primitives (`send`, `emit` of a `Note`
+  event, `commit`, `ucommit`, `modDb`, `modUdb`, changes of `conns` and of `rebooted`); then it
+  survives every function of Core.lean / Ws.lean (`AClosed.stepPlain`). -/
 
 theorem exec_closed (s0 : Sys) : AClosed (fun s => ∃ L, Exec s0 s L) where
   send0 := fun s c f ⟨L, h⟩ => ⟨L ++ [s], h.send c f⟩
@@ -753,6 +327,11 @@ theorem body_of_not_crash {op : Op} (h : op.isCrash = false) : op.body = op := b
 theorem stepPlain_sends (s : Sys) (op : Op) {L : List Sys} (hL : Exec s.atStart (s.atStart.stepPlain op) L) :
     Sends (s.disk, s.udisk) (s.atStart.stepPlain op) L :=
   hL.sends rfl rfl
+
+/-- `AckInv0` holds at the end of (and, `Exec.sends`, all along) every operation -/
+theorem ackInv0_stepPlain (s : Sys) (op : Op) : AckInv0 (s.disk, s.udisk) (s.atStart.stepPlain op) := by
+  obtain ⟨L, hL⟩ := stepPlain_exec s.atStart op
+  exact ⟨(stepPlain_sends s op hL).count, (stepPlain_sends s op hL).last⟩
 
 theorem cutAtCommit_zero (l : List Event) : cutAtCommit 0 l = [] := by
   cases l <;> rfl
@@ -800,6 +379,17 @@ theorem cutAtCommit_count : ∀ (pre rest : List Event),
     | internal c cls => exact nc _ rfl (fun _ _ => rfl)
     | fired a b => exact nc _ rfl (fun _ _ => rfl)
 
+theorem step_crash_succ (s : Sys) (k : Nat) (op : Op) :
+    s.step (.crashIn (k + 1) op) =
+      match (s.atStart.stepPlain op).snaps[k]? with
+      | some p => { ((s.atStart.stepPlain op).crashTo p) with out := cutAtCommit (k + 1) (s.atStart.stepPlain op).out }
+      | none => (s.atStart.stepPlain op).crashTo ((s.atStart.stepPlain op).disk, (s.atStart.stepPlain op).udisk) := by
+  unfold Sys.step atStart
+  dsimp only
+  rw [Nat.add_sub_cancel]
+  generalize (Sys.stepPlain _ op) = s1
+  cases s1.snaps[k]? <;> rfl
+
 /-- **what a crash restores**: for every `k`, the step `crashIn k op` leaves the files as of the
     `k`-th snapshot of `op` (those the step started with if `k = 0`, the final ones if `op` commits
     fewer than `k` times), nothing uncommitted, no connections -/
@@ -816,21 +406,10 @@ theorem step_crash_files (s : Sys) (k : Nat) (op : Op) :
   | zero => exact ⟨rfl, rfl, rfl, rfl⟩
   | succ k =>
     simp only [Nat.add_one_ne_zero, if_false, Nat.add_sub_cancel]
+    rw [step_crash_succ]
     cases h : (s.atStart.stepPlain op).snaps[k]? with
-    | some p =>
-      have e : s.step (.crashIn (k + 1) op) =
-          { ((s.atStart.stepPlain op).crashTo p) with out := cutAtCommit (k + 1) (s.atStart.stepPlain op).out } := by
-        simp only [Sys.step, Nat.add_sub_cancel]
-        unfold atStart at h
-        rw [h]
-      rw [e]; exact ⟨rfl, rfl, rfl, rfl⟩
-    | none =>
-      have e : s.step (.crashIn (k + 1) op) =
-          (s.atStart.stepPlain op).crashTo ((s.atStart.stepPlain op).disk, (s.atStart.stepPlain op).udisk) := by
-        simp only [Sys.step, Nat.add_sub_cancel]
-        unfold atStart at h
-        rw [h]
-      rw [e]; exact ⟨hlast.symm, rfl, rfl, rfl⟩
+    | some p => exact ⟨rfl, rfl, rfl, rfl⟩
+    | none => exact ⟨hlast.symm, rfl, rfl, rfl⟩
 
 /-- the output and the snapshots of a crashed step, by cases on `k` -/
 theorem crash_restores (s : Sys) (k : Nat) (op : Op) :
@@ -850,20 +429,10 @@ theorem crash_restores (s : Sys) (k : Nat) (op : Op) :
   | succ k =>
     refine ⟨fun h => absurd h (by omega), fun p _ h => ?_, fun hlt => ?_⟩
     · simp only [Nat.add_sub_cancel] at h
-      have e : s.step (.crashIn (k + 1) op) =
-          { ((s.atStart.stepPlain op).crashTo p) with out := cutAtCommit (k + 1) (s.atStart.stepPlain op).out } := by
-        simp only [Sys.step, Nat.add_sub_cancel]
-        unfold atStart at h
-        rw [h]
-      rw [e]; exact ⟨rfl, rfl, rfl, rfl⟩
+      rw [step_crash_succ, h]; exact ⟨rfl, rfl, rfl, rfl⟩
     · have h : (s.atStart.stepPlain op).snaps[k]? = none := by
         rw [List.getElem?_eq_none_iff]; omega
-      have e : s.step (.crashIn (k + 1) op) =
-          (s.atStart.stepPlain op).crashTo ((s.atStart.stepPlain op).disk, (s.atStart.stepPlain op).udisk) := by
-        simp only [Sys.step, Nat.add_sub_cancel]
-        unfold atStart at h
-        rw [h]
-      rw [e]; exact ⟨rfl, rfl, rfl, rfl⟩
+      rw [step_crash_succ, h]; exact ⟨rfl, rfl, rfl, rfl⟩
 
 /-- the output of any step is an initial part of the output of the operation it executes, and
     (unless it is empty) its snapshots are those of that operation -/
@@ -997,4 +566,200 @@ theorem C09_ack_durable_last {g : GSys} (hI : g.GInv) {op : Op} (hop : op.isCras
   rw [List.take_of_length_le hk, hlast] at hf
   exact ⟨(congrArg Prod.fst hf).trans hsy.1.symm, (congrArg Prod.snd hf).trans hsy.2.symm⟩
 
+/-! ### histories: every frame of the trace of every well-formed history -/
+
+theorem GSys.c09c_wf_prefix {g : GSys} {a b : List Op} (h : g.WF (a ++ b)) : g.WF a := by
+  induction a generalizing g with
+  | nil => trivial
+  | cons op rest ih => exact ⟨h.1, ih h.2⟩
+
+/-- every event of the trace of a history belongs to the output of one of its steps -/
+theorem Sys.trace_split : ∀ (ops : List Op) (s0 : Sys) (tpre : List Event) (e : Event) (tpost : List Event),
+    (Sys.run s0 ops).2 = tpre ++ e :: tpost →
+    ∃ a op rest pre post, ops = a ++ op :: rest ∧ tpre = (Sys.run s0 a).2 ++ pre ∧
+      ((Sys.run s0 a).1.step op).out = pre ++ e :: post := by
+  intro ops
+  induction ops with
+  | nil => intro s0 tpre e tpost h; simp [Sys.run] at h
+  | cons op rest ih =>
+    intro s0 tpre e tpost h
+    simp only [Sys.run] at h
+    rcases List.append_eq_append_iff.1 h with ⟨as, h1, h2⟩ | ⟨bs, h1, h2⟩
+    · obtain ⟨a, op', rest', pre, post, e1, e2, e3⟩ := ih (s0.step op) as e tpost h2
+      refine ⟨op :: a, op', rest', pre, post, by rw [e1]; rfl, ?_, ?_⟩
+      · simp only [Sys.run]; rw [h1, e2, List.append_assoc]
+      · simpa only [Sys.run] using e3
+    · cases bs with
+      | nil =>
+        simp only [List.nil_append] at h2
+        obtain ⟨a, op', rest', pre, post, e1, e2, e3⟩ := ih (s0.step op) [] e tpost h2.symm
+        have hnil : (Sys.run (s0.step op) a).2 = [] ∧ pre = [] := by
+          have := congrArg List.length e2; simp at this; exact ⟨List.eq_nil_of_length_eq_zero (by omega),
+            List.eq_nil_of_length_eq_zero (by omega)⟩
+        refine ⟨op :: a, op', rest', pre, post, by rw [e1]; rfl, ?_, ?_⟩
+        · simp only [Sys.run]; rw [hnil.1, hnil.2]; simpa using h1.symm
+        · simpa only [Sys.run] using e3
+      | cons x bs =>
+        simp only [List.cons_append, List.cons.injEq] at h2
+        refine ⟨[], op, rest, tpre, bs, rfl, by simp [Sys.run], ?_⟩
+        show (s0.step op).out = _
+        rw [h1, h2.1]
+
+/-- **C09, second clause, on traces.**  For every configuration, start time and well-formed
+    history `ops` (crashes, sweeps, restarts included), every prefix `tpre ++ [frame c f fl]` of the
+    trace: `fl = true`; the frame belongs to a step `op` of the history (`ops = a ++ op :: rest`,
+    `tpre` = the trace of `a` followed by `pre`), executed from the state `s` reached by `a`; that
+    step has an execution log `L` and in it the state `m` that sent the frame (`m.out = pre`),
+    which had nothing uncommitted, and the files a kill right after the frame leaves — the last
+    snapshot committed before it in that step, else the files `s` had — are the databases `m` was
+    acting on. -/
+theorem C09_ack_durable_trace (cfg : Cfg) (rb : Time) (ops : List Op) (hwf : (GSys.init cfg rb).WF ops)
+    {tpre : List Event} {c : Nat} {f : Frame} {fl : Bool} {tpost : List Event}
+    (ht : (Sys.run { cfg := cfg, rebooted := rb } ops).2 = tpre ++ .frame c f fl :: tpost) :
+    fl = true ∧ ∃ a op rest pre post, ops = a ++ op :: rest ∧
+      tpre = (Sys.run { cfg := cfg, rebooted := rb } a).2 ++ pre ∧
+      ((Sys.run { cfg := cfg, rebooted := rb } a).1.step op).out = pre ++ .frame c f fl :: post ∧
+      ∃ L, Exec (Sys.run { cfg := cfg, rebooted := rb } a).1.atStart
+            ((Sys.run { cfg := cfg, rebooted := rb } a).1.atStart.stepPlain op.body) L ∧
+        ∃ m ∈ L, m.out = pre ∧ m.db = m.disk ∧ m.udb = m.udisk ∧
+          lastSnap ((Sys.run { cfg := cfg, rebooted := rb } a).1.disk, (Sys.run { cfg := cfg, rebooted := rb } a).1.udisk)
+            (((Sys.run { cfg := cfg, rebooted := rb } a).1.step op).snaps.take (commitCount pre)) = (m.db, m.udb) := by
+  obtain ⟨a, op, rest, pre, post, e1, e2, e3⟩ := Sys.trace_split ops _ _ _ _ ht
+  have hreach : ((GSys.init cfg rb).run a).Reach :=
+    GSys.reach_run (.init cfg rb) a (GSys.c09c_wf_prefix (b := op :: rest) (e1 ▸ hwf))
+  have hI := hreach.ginv
+  have hsys : ((GSys.init cfg rb).run a).sys = (Sys.run { cfg := cfg, rebooted := rb } a).1 := GSys.run_sys _ _
+  obtain ⟨L, hL⟩ := C09_ack_durable_log ((GSys.init cfg rb).run a).sys op
+  have e3' : (((GSys.init cfg rb).run a).sys.step op).out = pre ++ .frame c f fl :: post := by rw [hsys]; exact e3
+  obtain ⟨hb, m, hm, h1, _, h3, h4, h5⟩ := C09_ack_durable hI op hL e3'
+  rw [hsys] at hL h5
+  exact ⟨hb, a, op, rest, pre, post, e1, e2, e3, L, hL, m, hm, h1, h3, h4, h5⟩
+
+/-! ## 7. Non-vacuity: a `close` that commits three times (usage database on) -/
+
+namespace C09cExample
+
+/-- connect, bind, claim (new nameplate and mailbox), open, add -/
+def hist : List Op :=
+  [ .connect 1,
+    .recv 1 10 (.int 1) (.bind (some "app") (some "s1") (some "impl") (some "v")),
+    .recv 1 11 (.int 2) (.claim (some "4") "mb1"),
+    .recv 1 12 (.int 3) (.open_ (some "mb1")),
+    .recv 1 13 (.int 4) (.add (some (.str "pake")) (some (.str "body"))) ]
+
+def g : GSys := (GSys.init { usage := true } 0).run hist
+
+theorem g_reach : g.Reach := GSys.reach_of_wfB _ _ _ (by decide +kernel)
+
+/-- the last side closes: side row updated + commit; nameplate and mailbox summaries written,
+    rows deleted, usage commit; channel commit; answer -/
+def closeOp : Op := .recv 1 14 (.int 5) (.close (some "mb1") (some "happy"))
+
+def ackF : Event := .frame 1 (.ack (.int 5)) true
+def closedF : Event := .frame 1 .closed true
+def cC : Event := .commit .chan
+def cU : Event := .commit .usage
+
+/-- evaluated: the `ack` precedes all three commits, the answer follows them -/
+theorem close_out : (g.sys.step closeOp).out = [ackF, cC, cU, cC, closedF] := by decide +kernel
+
+example : (g.sys.step closeOp).snaps.length = 3 := by decide +kernel
+
+/-- the three crash points are three different pairs of files, all different from the files the
+    step started with; the last one is the databases of the completed step -/
+example :
+    let D0 := (g.sys.disk, g.sys.udisk)
+    let sn := (g.sys.step closeOp).snaps
+    lastSnap D0 (sn.take 0) = D0 ∧ lastSnap D0 (sn.take 1) ≠ D0 ∧
+    lastSnap D0 (sn.take 2) ≠ lastSnap D0 (sn.take 1) ∧ lastSnap D0 (sn.take 3) ≠ lastSnap D0 (sn.take 2) ∧
+    lastSnap D0 (sn.take 3) = ((g.sys.step closeOp).db, (g.sys.step closeOp).udb) := by
+  decide +kernel
+
+/-- `C09_ack_durable` applied to both frames of the step: the `ack` was sent from a state `m` with
+    empty output acting on the files the step STARTED with — a kill right after the `ack` leaves
+    those; the `closed` was sent from a state acting on the THIRD snapshot — a kill right after
+    `closed` leaves that one (the mailbox gone, its usage rows written) -/
+example : ∃ L, Exec g.sys.atStart (g.sys.atStart.stepPlain closeOp) L ∧
+    (∃ m ∈ L, m.out = [] ∧ m.db = m.disk ∧ m.udb = m.udisk ∧ (g.sys.disk, g.sys.udisk) = (m.db, m.udb)) ∧
+    (∃ m ∈ L, m.out = [ackF, cC, cU, cC] ∧ m.db = m.disk ∧ m.udb = m.udisk ∧
+      lastSnap (g.sys.disk, g.sys.udisk) ((g.sys.step closeOp).snaps.take 3) = (m.db, m.udb)) := by
+  obtain ⟨L, hL, H⟩ := C09_ack_durable_reach g_reach closeOp
+  refine ⟨L, hL, ?_, ?_⟩
+  · obtain ⟨_, m, hm, h1, _, h3, h4, h5⟩ := H [] 1 (.ack (.int 5)) true [cC, cU, cC, closedF] close_out
+    exact ⟨m, hm, h1, h3, h4, h5⟩
+  · obtain ⟨_, m, hm, h1, _, h3, h4, h5⟩ := H [ackF, cC, cU, cC] 1 .closed true [] close_out
+    exact ⟨m, hm, h1, h3, h4, h5⟩
+
+/-- `C09_ack_durable_crash` on the answer frame: the step `crashIn 3 closeOp` has the databases
+    the sender of `closed` was acting on, and its output is `pre` itself here (`r = []` is forced:
+    `pre` ends with a commit); on the `ack`: `crashIn 0 closeOp`, empty output, `r = pre = []` -/
+example : ∃ L, Exec g.sys.atStart (g.sys.atStart.stepPlain closeOp) L ∧
+    ∃ m ∈ L, m.out = [ackF, cC, cU, cC] ∧ (g.sys.step (.crashIn 3 closeOp)).db = m.db ∧
+      (g.sys.step (.crashIn 3 closeOp)).udb = m.udb := by
+  obtain ⟨L, hL⟩ := C09_ack_durable_log g.sys closeOp
+  obtain ⟨m, hm, h1, _, _, h4, h5, _⟩ :=
+    C09_ack_durable_crash g_reach.ginv (op := closeOp) rfl hL (pre := [ackF, cC, cU, cC]) (post := []) close_out
+  exact ⟨L, hL, m, hm, h1, h4, h5⟩
+
+example : (g.sys.step (.crashIn 3 closeOp)).out = [ackF, cC, cU, cC] ∧
+    (g.sys.step (.crashIn 0 closeOp)).out = [] ∧
+    (g.sys.step (.crashIn 0 closeOp)).db = g.sys.db ∧
+    (g.sys.step (.crashIn 3 closeOp)).db = (g.sys.step closeOp).db ∧
+    (g.sys.step (.crashIn 3 closeOp)).db ≠ g.sys.db := by decide +kernel
+
+/-- the theorem covers crashed steps too: the `ack` that got out of `crashIn 2 closeOp` -/
+example : (g.sys.step (.crashIn 2 closeOp)).out = [] ++ ackF :: [cC, cU] := by decide +kernel
+
+example : ∃ L, Exec g.sys.atStart (g.sys.atStart.stepPlain closeOp) L ∧
+    ∃ m ∈ L, m.out = [] ∧ (g.sys.disk, g.sys.udisk) = (m.db, m.udb) := by
+  obtain ⟨L, hL, H⟩ := C09_ack_durable_reach g_reach (.crashIn 2 closeOp)
+  obtain ⟨_, m, hm, h1, _, _, _, h5⟩ := H [] 1 (.ack (.int 5)) true [cC, cU] (by decide +kernel)
+  exact ⟨L, hL, m, hm, h1, h5⟩
+
+/-- `C09_ack_durable_last`: hypotheses satisfiable (`k = 3 = snaps.length`) -/
+example : (g.sys.step (.crashIn 3 closeOp)).db = (g.sys.step closeOp).db ∧
+    (g.sys.step (.crashIn 3 closeOp)).udb = (g.sys.step closeOp).udb :=
+  C09_ack_durable_last g_reach.ginv (op := closeOp) rfl (by decide +kernel)
+
+/-- `send_durable`: hypotheses satisfiable (the state a step starts from), conclusion non-trivial
+    (the answer frame of `closeOp` is sent after three commits: see `close_out`) -/
+example : AckInv0 (g.sys.disk, g.sys.udisk) g.sys.atStart ∧ g.sys.atStart.synced = true :=
+  ⟨⟨rfl, rfl⟩, by decide +kernel⟩
+
+/-- `Exec` itself does not force `synced = true`: a write followed by `send` without a commit is an
+    execution, its frame carries `false`, and the files a kill leaves are NOT what the sender was
+    acting on — `b = true` in `C09_ack_durable` comes from the commit discipline of the code -/
+example :
+    let s0 : Sys := {}
+    let w : Chan → Chan := (·.insMailbox ⟨"app", "mb", 0, false⟩)
+    Exec s0 ((s0.modDb w).send 1 .released) [s0.modDb w] ∧
+    ((s0.modDb w).send 1 .released).out = [.frame 1 .released false] ∧
+    lastSnap (s0.disk, s0.udisk) ((s0.modDb w).send 1 .released).snaps ≠ ((s0.modDb w).db, (s0.modDb w).udb) :=
+  ⟨(Exec.start.modDb _).send 1 .released, by decide +kernel, by decide +kernel⟩
+
+/-- `C09_ack_durable_trace`: its hypotheses hold for `hist ++ [closeOp]` (17 events) and the last
+    event of its trace, the `closed` frame -/
+example : (GSys.init { usage := true } 0).WF (hist ++ [closeOp]) ∧
+    (Sys.run { cfg := { usage := true }, rebooted := 0 } (hist ++ [closeOp])).2 =
+      (Sys.run { cfg := { usage := true }, rebooted := 0 } (hist ++ [closeOp])).2.take 16 ++ closedF :: [] :=
+  ⟨GSys.wfB_sound (by decide +kernel), by decide +kernel⟩
+
+end C09cExample
+
 end Wormhole
+
+#print axioms Wormhole.Sys.send_flag
+#print axioms Wormhole.Sys.send_durable
+#print axioms Wormhole.Sys.ackInv0_stepPlain
+#print axioms Wormhole.Sys.Exec.sends
+#print axioms Wormhole.Sys.stepPlain_exec
+#print axioms Wormhole.Sys.stepPlain_sends
+#print axioms Wormhole.Sys.step_crash_files
+#print axioms Wormhole.Sys.crash_restores
+#print axioms Wormhole.Sys.ack_files
+#print axioms Wormhole.C09_ack_durable
+#print axioms Wormhole.C09_ack_durable_log
+#print axioms Wormhole.C09_ack_durable_reach
+#print axioms Wormhole.C09_ack_durable_crash
+#print axioms Wormhole.C09_ack_durable_last
+#print axioms Wormhole.C09_ack_durable_trace
